@@ -38,4 +38,26 @@ CATALOG = [
     dict(pid="C21", name="qed term applied for fixed alpha_em too", edits=[("eko/scale_variations/expanded.py", "    sv_ker = non_singlet_variation(gamma[1:, 0], a_s, order, nf, L)\n    if alphaem_running:\n        if order[1] >= 2:", "    sv_ker = non_singlet_variation(gamma[1:, 0], a_s, order, nf, L)\n    if True:\n        if order[1] >= 2:")], expect="non_singlet_variation_qed"),
     dict(pid="C21", name="singlet g1g0 dropped (g0g1 twice)", edits=[("eko/scale_variations/expanded.py", "        g1g0 = gamma[1] @ gamma[0]\n        g0g1 = gamma[0] @ gamma[1]", "        g1g0 = gamma[0] @ gamma[1]\n        g0g1 = gamma[0] @ gamma[1]")], expect="singlet"),
     dict(pid="C21", name="harmless: variation_as1 commuted product", harmless=True, edits=[("eko/scale_variations/expanded.py", "    return L * gamma[0]", "    return gamma[0] * L")]),
+    # ---- C23 -------------------------------------------------------------------------------------------
+    dict(pid="C23", name="lambda_m uses +det", edits=[("ekore/anomalous_dimensions/__init__.py", "lambda_m = 1.0 / 2.0 * (gamma_S[0, 0] + gamma_S[1, 1] - det)", "lambda_m = 1.0 / 2.0 * (gamma_S[0, 0] - gamma_S[1, 1] - det)")], expect="C23.2D"),
+    dict(pid="C23", name="projectors swapped in exp", edits=[("ekore/anomalous_dimensions/__init__.py", "exp = e_m * np.exp(lambda_m) + e_p * np.exp(lambda_p)", "exp = e_p * np.exp(lambda_m) + e_m * np.exp(lambda_p)")], expect="exp_is_spectral_sum"),
+    dict(pid="C23", name="outer product transposed", edits=[("ekore/anomalous_dimensions/__init__.py", "e[i] = np.outer(v[:, i], v_inv[i])", "e[i] = np.outer(v_inv[i], v[:, i])")], expect="C23.eig"),
+    dict(pid="C23", name="det discriminant factor 4 -> 2", edits=[("ekore/anomalous_dimensions/__init__.py", "+ 4.0 * gamma_S[0, 1] * gamma_S[1, 0]", "+ 2.0 * gamma_S[0, 1] * gamma_S[1, 0]")], expect="C23.2D"),
+    dict(pid="C23", name="harmless: c folded into e_p", harmless=True, edits=[("ekore/anomalous_dimensions/__init__.py", "e_p = +c * (gamma_S - lambda_m * identity)", "e_p = (gamma_S - lambda_m * identity) / det")]),
+    # ---- C22 -------------------------------------------------------------------------------------------
+    dict(pid="C22", name="backward expanded a^3: A0A1 term dropped", edits=[("eko/evolution_operator/quad_ker.py", "-A[2] + A[0] @ A[1] + A[1] @ A[0] - A[0] @ A[0] @ A[0]", "-A[2] + 2 * A[1] @ A[0] - A[0] @ A[0] @ A[0]")], expect="C22.ome"),
+    dict(pid="C22", name="backward expanded a^2 sign", edits=[("eko/evolution_operator/quad_ker.py", "ome += a_s**2 * (-A[1] + A[0] @ A[0])", "ome += a_s**2 * (-A[1] - A[0] @ A[0])")], expect="C22.ome"),
+    dict(pid="C22", name="invert_matching_coeffs 5 -> 4", edits=[("eko/couplings.py", "matching_coeffs_down[3, 2] = 5 * c_up[1, 1] * c_up[2, 1] - c_up[3, 2]", "matching_coeffs_down[3, 2] = 4 * c_up[1, 1] * c_up[2, 1] - c_up[3, 2]")], expect="C22.decoupling"),
+    dict(pid="C22", name="exact backward drops the a^3 term", edits=[("eko/evolution_operator/quad_ker.py", "        if matching_order[0] >= 3:\n            ome += a_s**3 * A[2]\n", "        if matching_order[0] >= 3 and backward_method is not MatchingMethods.BACKWARD_EXACT:\n            ome += a_s**3 * A[2]\n")], expect="C22.ome"),
+    dict(pid="C22", name="harmless: a_s**2 written as product", harmless=True, edits=[("eko/evolution_operator/quad_ker.py", "            ome += a_s**2 * A[1]", "            ome += a_s * a_s * A[1]")]),
+    # ---- C11 -------------------------------------------------------------------------------------------
+    dict(pid="C11", name="u_vec adds e_p/kk", edits=[("eko/kernels/singlet.py", "(e_m @ rp @ e_m + e_p @ rp @ e_p) / kk", "(e_m @ rp @ e_m + e_p @ rp @ e_p + e_p) / kk")], expect="u_vec"),
+    dict(pid="C11", name="eko_iterate multiplies by transposed step", edits=[("eko/kernels/singlet.py", "        ek = np.ascontiguousarray(ad.exp_matrix_2D(ln)[0])\n        e = ek @ e\n        al = ah\n    return e", "        ek = np.ascontiguousarray(ad.exp_matrix_2D(ln)[0])\n        e = ek.T @ e\n        al = ah\n    return e")], expect="ITERATE"),
+    dict(pid="C11", name="qed iterate exponent shifted by identity", edits=[("eko/kernels/singlet_qed.py", "ln = gamma / betatot * delta_a", "ln = (gamma + np.identity(dim)) / betatot * delta_a")], expect="C11.qed"),
+    dict(pid="C11", name="gamma_variation adds a constant", edits=[("eko/scale_variations/exponentiated.py", "gamma[1] += beta0 * gamma[0] * L", "gamma[1] += beta0 * (gamma[0] + 1.0) * L")], expect="gamma_variation"),
+    dict(pid="C11", name="backward expanded uses transposed A0", edits=[("eko/evolution_operator/quad_ker.py", "ome += a_s**2 * (-A[1] + A[0] @ A[0])", "ome += a_s**2 * (-A[1] + A[0].T @ A[0])")], expect="C11.ome"),
+    dict(pid="C11", name="perturbative inverts uh instead of ul", edits=[("eko/kernels/singlet.py", "ek = np.ascontiguousarray(uh) @ np.ascontiguousarray(e0) @ np.linalg.inv(ul)", "ek = np.linalg.inv(uh).T @ np.ascontiguousarray(e0) @ np.ascontiguousarray(ul)")], expect="PERTURBATIVE"),
+    dict(pid="C11", name="exp_matrix_2D e_m sign", edits=[("ekore/anomalous_dimensions/__init__.py", "e_m = -c * (gamma_S - lambda_p * identity)", "e_m = +c * (gamma_S - lambda_p * identity)")], expect="exp_matrix_2D"),
+    dict(pid="C11", name="harmless: u_vec product order swapped (sum rule still holds)", harmless=True, edits=[("eko/kernels/singlet.py", "rp += np.ascontiguousarray(r[kk - jj]) @ u[jj]", "rp += u[jj] @ np.ascontiguousarray(r[kk - jj])")]),
+    dict(pid="C11", name="harmless: eko_iterate right multiplication (sum rule still holds)", harmless=True, edits=[("eko/kernels/singlet.py", "        ek = np.ascontiguousarray(ad.exp_matrix_2D(ln)[0])\n        e = ek @ e\n        al = ah\n    return e", "        ek = np.ascontiguousarray(ad.exp_matrix_2D(ln)[0])\n        e = e @ ek\n        al = ah\n    return e")]),
 ]
